@@ -757,7 +757,7 @@ func corpus() []*Prog {
 			}
 			t2 = append(t2, Op{K: "g", Key: 0}, Op{K: "u", Key: 3, Val: 41}, Op{K: "r", Key: 6})
 			p.Txns = []TxnIn{{Ops: t1, Commit: true}, {Ops: t2, Commit: true}}
-			p.DumpEvery = 2 // one dump, after the second transaction... and the last
+			p.DumpEvery = 99 // one fresh dump, after the last transaction
 			ps = append(ps, p)
 		}
 	}
@@ -787,6 +787,9 @@ func corpus() []*Prog {
 	ps = append(ps, p5)
 	for _, q := range ps {
 		q.Reposition = true
+		if strings.HasPrefix(q.Name, "finding-") {
+			q.DumpEvery = 99 // the defect shows after the last transaction (a dump is forced wherever a known precondition is met)
+		}
 	}
 	return ps
 }
